@@ -5,7 +5,7 @@ import json, os, shutil, subprocess, sys, time
 V = os.path.dirname(os.path.dirname(os.path.abspath(__file__)))
 pid, src = sys.argv[1], sys.argv[2]
 checks = sys.argv[3:] or [pid]
-wt = "/tmp/wt-seedtest"
+wt = os.environ.get("SEEDTEST_WT", "/tmp/wt-seedtest")
 if not os.path.exists(wt):
     subprocess.run(["git", "-C", "/repo", "worktree", "add", "-q", "--detach", wt, "HEAD"], check=True)
 subprocess.run(["git", "-C", wt, "checkout", "-q", "--", "."], check=True)
